@@ -14,7 +14,7 @@ def components():
 
 def oracles_():
     # JsonNumDenote (slice jsonnum): the text lyjson_number() hands to the type plugins denotes the JSON number that was written
-    return [T.RfcStoreOracle(), T.Dec64ExactBuf(), T2.SourceIndep(), T2.Types2Rfc(), comps_jsonnum.JsonNumDenote()]
+    return [T.RfcStoreOracle(), T.Dec64ExactBuf(), T2.SourceIndep(), T2.Types2Rfc(), T2.DerivedRfc(), comps_jsonnum.JsonNumDenote()]
 
 
 MANIFEST = {
